@@ -198,7 +198,7 @@ func c17Check(e *env, batch []c17Pending) {
 	if len(batch) == 0 {
 		return
 	}
-	reqs := make([]string, 2*len(batch))
+	reqs := make([]string, 3*len(batch))
 	printed := make([]string, len(batch))
 	ids := newIDTable()
 	for i := range batch {
@@ -226,10 +226,12 @@ func c17Check(e *env, batch []c17Pending) {
 			reqs[i] = "parse_print " + hx.I(int64(2*len(items)+12)) + " " + hx.I(int64(p)) + c17Tokens(rest)
 		}
 		reqs[len(batch)+i] = "ping"
+		reqs[2*len(batch)+i] = "ping"
 		if n != nil {
 			b.sexp = nodeSexp(n, ids)
 			printed[i] = n.String()
 			reqs[len(batch)+i] = "print_node " + b.sexp
+			reqs[2*len(batch)+i] = "tokens_of " + b.sexp
 		}
 	}
 	resp := e.m.Batch(reqs)
@@ -279,6 +281,36 @@ func c17Check(e *env, batch []c17Pending) {
 				}
 				e.res.Fail(hx.Violation{Kind: "mismatch", What: "model printer (Model/AstPrint.v, the REPAIRED String methods) and the real String() disagree", Case: b.c,
 					Expected: printed[i], Observed: got}, "")
+			}
+		}
+		// ---- token correspondence: the real scanner reads the real String() as the items
+		//      the Spec's tokens_of gives for this tree (this is the step the theorems
+		//      leave to the correspondence) ----
+		if b.class == "ok" && !c17Unsafe(strings.TrimSuffix(printed[i], "}")) {
+			var lexed []parse.VerifItem
+			if b.c.Kind == "expr" {
+				lexed = parse.VerifLex("", printed[i], true)
+				if k := len(lexed); k > 0 {
+					lexed = lexed[:k-1] // the closing "unclosed tag" error item of expression mode
+				}
+			} else {
+				lexed = parse.VerifLex("", printed[i], false)
+				if k := len(lexed); k >= 2 {
+					lexed = lexed[1 : k-1] // "{" ... EOF
+				}
+			}
+			var want []string
+			for _, it := range lexed {
+				want = append(want, hx.I(int64(it.Typ)), hx.H(it.Val))
+			}
+			tr := resp[2*len(batch)+i]
+			if strings.Join(tr, " ") == strings.Join(want, " ") {
+				e.res.Histogram["token-correspondence:agree"]++
+			} else if pr := resp[len(batch)+i]; len(pr) == 1 && pr[0] == "none" {
+				e.res.Histogram["token-correspondence:skipped-float-outside-printing-domain"]++
+			} else {
+				e.res.Fail(hx.Violation{Kind: "mismatch", What: "the scanner does not read String() as the items tokens_of (Spec/ExprSyntax.v) gives for the tree", Case: b.c,
+					Expected: map[string]string{"printed": printed[i], "items": strings.Join(want, " ")}, Observed: strings.Join(tr, " ")}, "")
 			}
 		}
 		// ---- oracle: the printed text parses back to the same tree ----
